@@ -2,6 +2,7 @@ package main
 
 import (
 	"context"
+	"errors"
 	"fmt"
 	"net"
 	"strings"
@@ -425,5 +426,184 @@ func runPeerCapsAll(r *ev.Run) {
 		}()
 	}
 	wg.Wait()
+	for _, c := range [][2]int{{1, 3}, {2, 4}} {
+		sig, what := runSharedAddress(c[0], c[1])
+		r.Add(int64(c[1]), int64(c[1]), 1, 1)
+		r.Distinct("caps-shared", c)
+		if strings.HasPrefix(sig, "harness:") {
+			ev.HarnessError("shared-address scenario: %s %s", sig, what)
+		}
+		if sig != "" {
+			r.Violate(sig, what, map[string]any{"part": "syncer-peercaps", "cap": c[0], "connections": c[1]})
+		}
+	}
+	if sig, what := runShutdownCorners(); sig != "" {
+		if strings.HasPrefix(sig, "harness:") {
+			ev.HarnessError("shutdown corners: %s %s", sig, what)
+		}
+		r.Violate(sig, what, map[string]any{"part": "syncer-shutdown-corners"})
+	}
+	r.Add(2, 2, 2, 2)
 	r.Extra["peercap_sequences"] = len(jobs)
+}
+
+// runSharedAddress: n inbound connections from one IP that all claim the same listening port, i.e. the same
+// net address, completed one after the other. The cap is on connections being served, however they name
+// themselves: each connection is probed with an RPC, and Close must still return.
+func runSharedAddress(cap, n int) (sig, what string) {
+	u := univ.NewUniverse("caps-shared", univ.RegimeV2)
+	nd := node.New(u)
+	mn := memnet.New()
+	l := mn.Listen("10.9.9.9:9000")
+	genesisID := u.Genesis.ID()
+	s := syncer.New(l, nd.CM, newPeerStore(), gateway.Header{GenesisID: genesisID, UniqueID: gateway.GenerateUniqueID(), NetAddress: "10.9.9.9:9000"},
+		syncer.WithMaxInboundPeers(cap), syncer.WithSyncInterval(time.Hour), syncer.WithPeerDiscoveryInterval(time.Hour),
+		syncer.WithDialer(&memnet.Dialer{N: mn, FromIP: "10.9.9.9"}))
+	runDone := make(chan error, 1)
+	go func() { runDone <- s.Run() }()
+	var ts []*gateway.Transport
+	defer func() {
+		for _, t := range ts {
+			t.Close()
+		}
+	}()
+	probe := func(t *gateway.Transport) bool {
+		st, err := t.DialStream()
+		if err != nil {
+			return false
+		}
+		defer st.Close()
+		st.SetDeadline(time.Now().Add(5 * time.Second))
+		r := &gateway.RPCShareNodes{}
+		if st.WriteID(r) != nil || st.WriteRequest(r) != nil {
+			return false
+		}
+		return st.ReadResponse(r) == nil
+	}
+	served := 0
+	for i := 0; i < n; i++ {
+		conn, err := mn.Dial(context.Background(), "10.1.1.1", "10.9.9.9:9000")
+		if err != nil {
+			return "harness:dial", err.Error()
+		}
+		conn.SetDeadline(time.Now().Add(10 * time.Second))
+		t, err := gateway.Dial(conn, gateway.Header{GenesisID: genesisID, UniqueID: gateway.GenerateUniqueID(), NetAddress: "10.1.1.1:7000"})
+		conn.SetDeadline(time.Time{})
+		if err != nil {
+			continue // refused
+		}
+		ts = append(ts, t)
+		go serveSPeer(t)
+		if probe(t) {
+			served++
+		}
+	}
+	// re-probe at the end: connections that are (still) being served
+	servedNow := 0
+	for _, t := range ts {
+		if probe(t) {
+			servedNow++
+		}
+	}
+	desc := fmt.Sprintf("maxInbound=%d, %d connections from 10.1.1.1 all announcing 10.1.1.1:7000", cap, n)
+	if servedNow > cap {
+		sig, what = "c18:caps:inbound-cap-exceeded:shared-address", fmt.Sprintf("%s: %d connections are being served at once (Peers() lists %d)", desc, servedNow, len(s.Peers()))
+	}
+	closeDone := make(chan struct{})
+	go func() { s.Close(); close(closeDone) }()
+	select {
+	case <-closeDone:
+	case <-time.After(30 * time.Second):
+		return "c18:caps:close-deadlock:shared-address", desc + ": Syncer.Close did not return within 30 s (connections registered under the same address shadow each other and are never disconnected)"
+	}
+	select {
+	case <-runDone:
+	case <-time.After(30 * time.Second):
+		return "c18:caps:run-does-not-stop:shared-address", desc + ": Run did not return within 30 s after Close"
+	}
+	return sig, what
+}
+
+// errListener fails its first Accept with an error that is not net.ErrClosed (a full file-descriptor table,
+// for instance).
+type errListener struct {
+	*memnet.Listener
+	failed atomic.Bool
+}
+
+func (l *errListener) Accept() (net.Conn, error) {
+	if l.failed.CompareAndSwap(false, true) {
+		return nil, errors.New("accept: too many open files")
+	}
+	return l.Listener.Accept()
+}
+
+// runShutdownCorners: (a) Close on a syncer that has an outbound peer but whose Run was never started;
+// (b) Run after one of its loops failed with an error: per its documentation it closes all connections,
+// terminates its goroutines and returns the error.
+func runShutdownCorners() (sig, what string) {
+	u := univ.NewUniverse("caps-corners", univ.RegimeV2)
+	genesisID := u.Genesis.ID()
+	// (a)
+	{
+		nd := node.New(u)
+		mn := memnet.New()
+		remote := mn.Listen("10.2.2.2:9000")
+		go func() {
+			for {
+				c, err := remote.Accept()
+				if err != nil {
+					return
+				}
+				go func() {
+					t, err := gateway.Accept(c, gateway.Header{GenesisID: genesisID, UniqueID: gateway.GenerateUniqueID(), NetAddress: "10.2.2.2:9000"})
+					if err == nil {
+						serveSPeer(t)
+					}
+				}()
+			}
+		}()
+		s := syncer.New(mn.Listen("10.9.9.9:9000"), nd.CM, newPeerStore(), gateway.Header{GenesisID: genesisID, UniqueID: gateway.GenerateUniqueID(), NetAddress: "10.9.9.9:9000"},
+			syncer.WithDialer(&memnet.Dialer{N: mn, FromIP: "10.9.9.9"}))
+		ctx, cancel := context.WithTimeout(context.Background(), 10*time.Second)
+		_, err := s.Connect(ctx, "10.2.2.2:9000")
+		cancel()
+		if err != nil {
+			return "harness:connect", err.Error()
+		}
+		done := make(chan struct{})
+		go func() { s.Close(); close(done) }()
+		select {
+		case <-done:
+		case <-time.After(30 * time.Second):
+			return "c18:close-deadlock:without-run", "a syncer with one outbound peer (Connect) whose Run was never started: Close did not return within 30 s (only Run disconnects peers)"
+		}
+		remote.Close()
+	}
+	// (b)
+	{
+		nd := node.New(u)
+		mn := memnet.New()
+		l := &errListener{Listener: mn.Listen("10.9.9.9:9000")}
+		s := syncer.New(l, nd.CM, newPeerStore(), gateway.Header{GenesisID: genesisID, UniqueID: gateway.GenerateUniqueID(), NetAddress: "10.9.9.9:9000"},
+			syncer.WithSyncInterval(time.Hour), syncer.WithPeerDiscoveryInterval(time.Hour), syncer.WithDialer(&memnet.Dialer{N: mn, FromIP: "10.9.9.9"}))
+		runDone := make(chan error, 1)
+		go func() { runDone <- s.Run() }()
+		select {
+		case err := <-runDone:
+			if err == nil {
+				sig, what = "c18:run-swallows-loop-error", "Run returned nil although its accept loop failed with an error"
+			}
+		case <-time.After(30 * time.Second):
+			sig, what = "c18:run-hangs-after-loop-error", "the listener's Accept failed once with 'too many open files': Run neither returned the error nor kept serving within 30 s (it has shut the listener and the peers down and waits for loops that only end on Close)"
+		}
+		done := make(chan struct{})
+		go func() { s.Close(); close(done) }()
+		select {
+		case <-done:
+		case <-time.After(30 * time.Second):
+			return "c18:close-deadlock:after-loop-error", "Close did not return within 30 s after Run's accept loop had failed"
+		}
+	}
+	return sig, what
 }
